@@ -279,8 +279,44 @@ func c04r11(c *core.Ctx) {
 						ok = true
 					}
 				}
+				// ... and on every path of an iteration: whatever way the body is left towards the next iteration, what
+				// was filled in has been emptied again (a reset under a condition that does not cover the fill leaks)
+				leak := false
 				if ok {
-					c.OK("C04/R11", subject, c.At(cons.Pos()), "filled and consumed per iteration, and emptied inside the same loop")
+					inNode := func(list []ast.Node, s ast.Stmt) []token.Pos {
+						var ps []token.Pos
+						for _, x := range list {
+							if s.Pos() <= x.Pos() && x.End() <= s.End() {
+								ps = append(ps, x.Pos())
+							}
+						}
+						return ps
+					}
+					type st struct{ dirty bool }
+					ends := enumeratePaths(m, body.List, func(s ast.Stmt, cur st) st {
+						last, dirty := token.NoPos, cur.dirty
+						for _, p := range inNode(u.accum, s) {
+							if p >= last {
+								last, dirty = p, true
+							}
+						}
+						for _, p := range inNode(u.reset, s) {
+							if p >= last {
+								last, dirty = p, false
+							}
+						}
+						return st{dirty}
+					}, func(ast.Expr) (bool, bool) { return false, false })
+					for _, e := range ends {
+						if e.dirty {
+							leak = true
+						}
+					}
+				}
+				if ok && leak {
+					c.Violation("C04/R11", subject, c.At(cons.Pos()), fmt.Sprintf("%s fills %s and consumes it inside the loop at %s and empties it there, but not on every path of an iteration: on some path the loop body ends with what this iteration collected still in %s, and the next iteration (table, archetype) starts with it", f.Name, v.Name(), c.At(L.Pos()), v.Name()))
+				} else if ok {
+					c.OK("C04/R11", subject, c.At(cons.Pos()), "filled and consumed per iteration, and emptied inside the same loop on every path of an iteration")
 				} else {
 					c.Violation("C04/R11", subject, c.At(cons.Pos()), fmt.Sprintf("%s fills %s and consumes it (at %s) inside the loop at %s, does not read it after the loop, but never empties it inside that loop; what one iteration collected leaks into the next (an earlier table's relations or changed-relation bits are applied to a later table)", f.Name, v.Name(), c.At(cons.Pos()), c.At(L.Pos())))
 				}
